@@ -43,3 +43,85 @@ func ParserLanguage() []*Grammar {
 	}
 	return out
 }
+
+// WithBounds returns copies of the grammars that define _onBounds.
+func WithBounds(gs []*Grammar) []*Grammar {
+	var out []*Grammar
+	for _, g := range gs {
+		c := MustGrammar(g.Name+"+B", g.Src)
+		c.Expect = g.Expect
+		c.OnBounds = true
+		out = append(out, c)
+	}
+	return out
+}
+
+// ParserPrecedence: operator tables for C05. Every item has the shape
+// e = e OP e @assoc(n) | ... | LP e RP | NUM | ID LP e RP.
+func ParserPrecedence() []*Grammar {
+	type op struct {
+		assoc string
+		prec  int
+	}
+	mk := func(name string, ops ...op) *Grammar {
+		src := "e = "
+		for i, o := range ops {
+			src += "e OP" + string(rune('A'+i)) + " e @" + o.assoc + "(" + itoa(o.prec) + ") | "
+		}
+		src += "LP e RP | NUM | ID LP e RP"
+		return MustGrammar(name, src)
+	}
+	L := func(n int) op { return op{"left", n} }
+	R := func(n int) op { return op{"right", n} }
+	return []*Grammar{
+		mk("O-L1", L(1)),
+		mk("O-R1", R(1)),
+		mk("O-L1L1", L(1), L(1)),
+		mk("O-R1R1", R(1), R(1)),
+		mk("O-L1L2", L(1), L(2)),
+		mk("O-L2L1", L(2), L(1)),
+		mk("O-L1R2", L(1), R(2)),
+		mk("O-R1L2", R(1), L(2)),
+		mk("O-R1R2", R(1), R(2)),
+		mk("O-L1L1R2R2", L(1), L(1), R(2), R(2)),
+		mk("O-L1L2R3", L(1), L(2), R(3)),
+		mk("O-L7L3", L(7), L(3)),
+		mk("O-L1Lmax", L(1), L(9223372036854775807)),
+		MustGrammar("O-unary", "e = e OPA e @left(1) | e OPB e @left(2) | OPA e | NUM"),
+	}
+}
+
+func itoa(n int) string {
+	if n == 0 {
+		return "0"
+	}
+	s := ""
+	for n > 0 {
+		s = string(rune('0'+n%10)) + s
+		n /= 10
+	}
+	return s
+}
+
+// ParserRecovery: @error placements for C09.
+func ParserRecovery() []*Grammar {
+	src := [][2]string{
+		{"E-start", "s = A B | @error"},
+		{"E-mid", "s = A @error B"},
+		{"E-end", "s = A @error"},
+		{"E-list", "p = st* ; st = ID EQ NUM SEMI | @error SEMI"},
+		{"E-block", "p = st* ; st = ID EQ NUM SEMI | LB st* RB | @error SEMI | LB @error RB"},
+		{"E-merged", "s = TA aa TX | TB aa TY ; aa = @error"},
+		{"E-nullpre", "s = o @error A ; o = B | @empty"},
+		{"E-two", "s = A @error B @error C"},
+		{"E-expr", "e = e PLUS t | t ; t = NUM | LP e RP | LP @error RP"},
+		{"E-listsep", "s = @list(x,COMMA) ; x = A | @error"},
+		{"E-startonly", "s = @error"},
+		{"E-after", "s = A b ; b = B | @error C"},
+	}
+	var out []*Grammar
+	for _, s := range src {
+		out = append(out, MustGrammar(s[0], s[1]))
+	}
+	return out
+}
